@@ -46,7 +46,8 @@ def run(ctx):
         for i, b in allb:
             f.write(json.dumps({"id": "c20-" + i, "acts": b}) + "\n")
     ctx.log("behaviours: %d of length 1, %d of length 2, %d simulated of length 8" % (len(b1), len(b2), len(bs)))
-    # 2. replay into the real daemon
+    # 2. replay into the real daemon (both binaries are built first, from the same tree)
+    race_bin = vlib.go_test_build(ctx, "internal/app", race=True)
     rows, fails, r = vlib.rows_check(ctx, "internal/app", "^TestVerifC20$", "RobustRows", env={"VERIF_BEHAVIOURS": bf},
                                      timeout=14000, shards=16, chunk=3000, par=4, cfg="RobustRows.cfg")
     meta = cluster.load_meta(ctx)
@@ -69,7 +70,7 @@ def run(ctx):
                % (c["panic"][:160], frames, json.dumps(c["scenario"].get("extra"))),
                {"behaviour": c["scenario"], "panic": c["panic"], "frames": c["frames"][:8]})
     # 3. data races: the loops of one process run concurrently under the race detector
-    race = race_run(ctx, v)
+    race = race_run(ctx, v, race_bin)
     cov = {
         "states": r1.distinct + (r2.distinct if r2 else 0), "transitions": r1.generated + (r2.generated if r2 else 0),
         "traces_validated_against_impl": len(rows),
@@ -91,8 +92,7 @@ def run(ctx):
     return "model_checking", cov, assumptions, v
 
 
-def race_run(ctx, v):
-    binary = vlib.go_test_build(ctx, "internal/app", race=True)
+def race_run(ctx, v, binary):
     out = ctx.sub("race")
     env = dict(vlib.go_env(), VERIF_OUT=out, VERIF_SEED=str(ctx.seed), VERIF_RUNS="6" if ctx.quick else "120",
                GORACE="halt_on_error=0 log_path=%s" % os.path.join(out, "race"))
